@@ -174,6 +174,7 @@ def run(ctx):
                 ctx.violation('live: no Period listed', inp)
             if len(listed) >= 2:
                 ctx.nontriv(('live', d['name'], secs, depth))
+        init_dd = {}
         # ------------------------------------------------ media inside each period (vod)
         for p, ppk in zip(d['periods'], pks):
             for name in [VIDEO[p['stream']]] + ([AUDIO[p['stream']]] if len(p['tracks']) > 1 else []):
@@ -194,6 +195,7 @@ def run(ctx):
                 if ri.status_code != 200:
                     ctx.violation('init segment of %s in period %s answers %d' % (name, p['pid'], ri.status_code), {'def': d})
                 dd = boxwalk.trex_default_duration(boxwalk.Root(ri.data)) if ri.status_code == 200 else None
+                init_dd['/mps/vod/%s/%d/%s' % (d['name'], ppk, name)] = dd
                 prev_end = None
                 for k, m in zip(nums, mo):
                     url = '/mps/vod/%s/%d/%s/%d.%s' % (d['name'], ppk, name, k, ext)
@@ -233,10 +235,77 @@ def run(ctx):
                         ctx.violation('%s: decode time %d, previous number ended at %d' % (url, s['tfdt'], prev_end[1]), inp)
                     prev_end = (k, s['tfdt'] + s['duration'])
                     ctx.nontriv(url)
+        time_addressing(ctx, c, d, reps, init_dd, 6 if ctx.quick() else 40)
     ctx.oblige('correspondence:HTTP(mps manifests)-vs-MpsModel.vod_periods/live_periods', ok_list)
     ctx.oblige('correspondence:HTTP(mps segments)-vs-MpsModel.mps_number', ok_num)
     witness(ctx, env, c, reps)
     env.close()
+
+
+def time_addressing(ctx, c, d, reps, init_dd, limit):
+    """the static manifest with SegmentTimeline addressing: every $Time$ URL it spells out is fetched and must carry the
+    advertised t and d; the k-th entry of a Representation must be the very segment the number route serves as
+    start_number + k - 1 (same payload, same decode time), which the model decides (MpsModel.mps_number)"""
+    from ..manifesthttp import advertised_urls, local_path, Mpd
+    r = c.get('/mps/vod/%s/hand_made.mpd?timeline=1' % d['name'])
+    ctx.count('http:mps-vod-timeline-manifest')
+    if r.status_code != 200:
+        ctx.violation('vod timeline manifest of %s answers %d' % (d['name'], r.status_code), {'def': d})
+        return
+    mpd = Mpd(r.data, 'http://localhost/')
+    per_rep = {}
+    for kind, url, info in advertised_urls(mpd, 0):
+        if kind == 'time':
+            per_rep.setdefault(local_path(url).rsplit('/time/', 1)[0], []).append((local_path(url), info))
+    for base, entries in sorted(per_rep.items()):
+        name = base.rsplit('/', 1)[-1]
+        if name not in reps:
+            continue
+        rep, ctype = reps[name]
+        idx = list(range(len(entries)))
+        if len(idx) > limit:
+            idx = idx[:limit // 2] + idx[-(limit - limit // 2):]
+        for k in idx:
+            url, info = entries[k]
+            ext = url.rsplit('.', 1)[-1].split('?')[0]
+            rn = c.get('%s/%d.%s' % (base, rep['start_number'] + k, ext))
+            rr = c.get(url)
+            ctx.count('http:mps-time-segment')
+            inp = {'def': d, 'url': url, 'entry': k + 1}
+            if rn.status_code >= 500:
+                continue                     # the number loop above reports it (period-at-end-of-source)
+            if rn.status_code != 200:
+                # the Period plays the source from an offset, the timeline lists the whole source: the entries past
+                # (source segments - offset) name media no route serves
+                ctx.violation('%s (timeline entry %d of %d, t=%d) is advertised but the source ends before it: the time route answers %d, '
+                              'the number route %d' % (url, k + 1, len(entries), info['t'], rr.status_code, rn.status_code),
+                              inp, key='mps-vod-timeline-overrun' if rr.status_code == 404 else None)
+                continue
+            if rr.status_code != 200:
+                ctx.violation('%s (timeline entry %d of %d, t=%d d=%d) answers %d, number %d of the Period answers 200' % (
+                    url, k + 1, len(entries), info['t'], info['d'], rr.status_code, rep['start_number'] + k), inp)
+                continue
+            s = seghttp.summarize(rr, init_dd.get(base))
+            sn = seghttp.summarize(rn, init_dd.get(base))
+            if not s or not sn:
+                ctx.violation('%s: not a media segment' % url, inp)
+                continue
+            if sn['tfdt'] != info['t']:
+                # the timeline is that of the source from its first segment, the Period plays it from its offset: the k-th
+                # entry's t is not the decode time the k-th segment of the Period has (same root as the overrun)
+                ctx.violation('%s: entry %d is advertised at t=%d but the %d-th segment of the Period has decode time %d' % (
+                    url, k + 1, info['t'], k + 1, sn['tfdt']), inp, key='mps-vod-timeline-not-period-relative')
+                continue
+            if s['tfdt'] != info['t']:
+                ctx.violation('%s: advertised t=%d, served decode time %d' % (url, info['t'], s['tfdt']), inp)
+                continue
+            m1 = [b.payload for b in s['root'].children if b.type == b'mdat']
+            m2 = [b.payload for b in sn['root'].children if b.type == b'mdat']
+            if m1 != m2 or (sn['tfdt'], sn['seq']) != (s['tfdt'], s['seq']):
+                ctx.violation('%s and number %d of the same Period differ (decode time %s / %s, sequence %s / %s, payload %s)' % (
+                    url, rep['start_number'] + k, s['tfdt'], sn['tfdt'], s['seq'], sn['seq'], 'same' if m1 == m2 else 'differs'), inp)
+                continue
+            ctx.nontriv(url)
 
 
 def check_contiguous(ctx, listed, inp):
